@@ -23,21 +23,81 @@ fn fl_json(fl: &Flat) -> Json {
         .set("clip_verts", Json::Arr(fl.sc.verts.iter().map(|(p, a)| Json::Str(format!("{} attr {:?}", f32v(p), a))).collect()))
 }
 
+/// How the colour and depth buffers of a history are laid out.
+#[derive(Clone, Copy, Debug, PartialEq)]
+enum Target {
+    /// Framebuf of two owned buffers of exactly the frame's size.
+    Owned,
+    /// Framebuf of two MutSlice2 windows into parents of *different* sizes at
+    /// *different* offsets (a stride or offset slip in either row is then
+    /// visible: colour and depth rows are indexed separately).
+    Windows { col_off: (u32, u32), col_pad: (u32, u32), dep_off: (u32, u32), dep_pad: (u32, u32) },
+    /// Owned colour buffer, depth buffer a window.
+    Mixed { dep_off: (u32, u32), dep_pad: (u32, u32) },
+}
+
 /// Renders a history: a list of render() calls, each a list of triangle
-/// indices, with one depth-sort setting.
-fn render_history(fl: &Flat, calls: &[Vec<usize>], sort: Option<DepthSort>, test: Option<Ordering>, cutout: bool) -> Result<(Vec<u32>, Vec<u32>), String> {
+/// indices with its own depth-sort setting, over a prior frame.
+#[allow(clippy::too_many_arguments)]
+fn render_history(fl: &Flat, calls: &[(Vec<usize>, Option<DepthSort>)], test: Option<Ordering>, cutout: bool, prior_z: &[f32], target: Target) -> Result<(Vec<u32>, Vec<u32>), String> {
+    use re::geom::{vertex, Tri, Vertex};
+    use re::render::clip::ClipVec;
+    use re::render::shader::Shader;
+    use re::render::target::Framebuf;
+    use re::util::buf::Buf2;
     let to_screen = viewport(pt2(0, 0)..pt2(fl.w, fl.h));
-    let ctx = Context { face_cull: None, depth_sort: sort, depth_test: test, ..Context::default() };
-    let mut cv = Canvas::new(fl.w, fl.h, (0, 0, fl.w, fl.h), |_, _| COL_SENT, |_, _| 0.0);
-    for call in calls {
-        let tris: Vec<[usize; 3]> = call.iter().map(|&k| fl.sc.tris[k]).collect();
-        if cutout {
-            render_clip(&fl.sc, &tris, shade_cutout, &ctx, to_screen, &mut cv, Tk::FbOwned)?;
-        } else {
-            render_clip(&fl.sc, &tris, shade_plain, &ctx, to_screen, &mut cv, Tk::FbOwned)?;
+    let (w, h) = (fl.w, fl.h);
+    let (co, cp, dof, dp) = match target {
+        Target::Owned => ((0, 0), (0, 0), (0, 0), (0, 0)),
+        Target::Windows { col_off, col_pad, dep_off, dep_pad } => (col_off, col_pad, dep_off, dep_pad),
+        Target::Mixed { dep_off, dep_pad } => ((0, 0), (0, 0), dep_off, dep_pad),
+    };
+    let mut col = Buf2::new_with((co.0 + w + cp.0, co.1 + h + cp.1), |_, _| COL_SENT);
+    let mut dep = Buf2::new_with((dof.0 + w + dp.0, dof.1 + h + dp.1), |x, y| if x >= dof.0 && x < dof.0 + w && y >= dof.1 && y < dof.1 + h { prior_z[((y - dof.1) * w + (x - dof.0)) as usize] } else { 12345.0 });
+    let verts: Vec<Vertex<ClipVec, f32>> = fl.sc.verts.iter().map(|(p, a)| vertex(ClipVec::from(*p), *a)).collect();
+    for (call, sort) in calls {
+        let ctx = Context { face_cull: None, depth_sort: *sort, depth_test: test, ..Context::default() };
+        let tris: Vec<Tri<usize>> = call.iter().map(|&k| Tri(fl.sc.tris[k])).collect();
+        let shader_plain = Shader::new(|v: Vertex<ClipVec, f32>, _: ()| v, shade_plain);
+        let shader_cut = Shader::new(|v: Vertex<ClipVec, f32>, _: ()| v, shade_cutout);
+        crate::catch(|| {
+            macro_rules! go {
+                ($fb:expr) => {{
+                    let mut fb = $fb;
+                    if cutout {
+                        re::render::render(&tris, &verts, &shader_cut, (), to_screen, &mut fb, &ctx);
+                    } else {
+                        re::render::render(&tris, &verts, &shader_plain, (), to_screen, &mut fb, &ctx);
+                    }
+                }};
+            }
+            match target {
+                Target::Owned => go!(Framebuf { color_buf: &mut col, depth_buf: &mut dep }),
+                Target::Windows { .. } => go!(Framebuf { color_buf: col.slice_mut((co.0..co.0 + w, co.1..co.1 + h)), depth_buf: dep.slice_mut((dof.0..dof.0 + w, dof.1..dof.1 + h)) }),
+                Target::Mixed { .. } => go!(Framebuf { color_buf: &mut col, depth_buf: dep.slice_mut((dof.0..dof.0 + w, dof.1..dof.1 + h)) }),
+            }
+        })?;
+    }
+    // nothing outside the windows may change
+    for y in 0..col.height() {
+        for x in 0..col.width() {
+            let inside = x >= co.0 && x < co.0 + w && y >= co.1 && y < co.1 + h;
+            if !inside && col[[x, y]] != COL_SENT {
+                return Err(format!("colour cell ({x},{y}) outside the window was written"));
+            }
         }
     }
-    Ok((cv.col.data().to_vec(), cv.dep.data().iter().map(|z| z.to_bits()).collect()))
+    for y in 0..dep.height() {
+        for x in 0..dep.width() {
+            let inside = x >= dof.0 && x < dof.0 + w && y >= dof.1 && y < dof.1 + h;
+            if !inside && dep[[x, y]] != 12345.0 {
+                return Err(format!("depth cell ({x},{y}) outside the window was written"));
+            }
+        }
+    }
+    let c: Vec<u32> = (0..h).flat_map(|y| (0..w).map(move |x| (x, y))).map(|(x, y)| col[[co.0 + x, co.1 + y]]).collect();
+    let z: Vec<u32> = (0..h).flat_map(|y| (0..w).map(move |x| (x, y))).map(|(x, y)| dep[[dof.0 + x, dof.1 + y]].to_bits()).collect();
+    Ok((c, z))
 }
 
 fn permutations(n: usize) -> Vec<Vec<usize>> {
@@ -63,7 +123,34 @@ fn permutations(n: usize) -> Vec<Vec<usize>> {
 
 fn order_case(rng: &mut Rng, rep: &mut Report, idx: u64) {
     let n = 2 + rng.usize(if idx % 4 == 0 { 9 } else { 4 }); // 2..10, mostly 2..5
-    let fl = gen_flat(rng, n, 48, true);
+    let mut fl = gen_flat(rng, n, 48, true);
+    // Depth magnitudes: the whole clip vector of a triangle scaled by 2^k
+    // leaves its footprint alone and multiplies its reciprocal depth by
+    // 2^-k: depths from 1e-6 to 1e6 in one scene
+    let scaled = idx % 5 == 2;
+    if scaled {
+        rep.count("scenes_with_depths_over_many_magnitudes");
+        for t in fl.sc.tris.clone() {
+            let f = 2.0f32.powi(rng.int(-20, 20) as i32);
+            for i in t {
+                fl.sc.verts[i].0 = fl.sc.verts[i].0.map(|c| c * f);
+            }
+        }
+    }
+    // Near ties: copies of the first triangle with every coordinate scaled by
+    // 1 ± j·2^-23 — the same footprint, reciprocal depths a few ulps apart.
+    // (Exact ties are excluded below, from the layers' actual depths.)
+    if idx % 5 == 3 && n >= 3 {
+        rep.count("scenes_with_depths_a_few_ulps_apart");
+        let base: Vec<[f32; 4]> = fl.sc.tris[0].iter().map(|&i| fl.sc.verts[i].0).collect();
+        for (k, t) in fl.sc.tris.clone().iter().enumerate().skip(1).take(3) {
+            let f = 1.0 + (k as f32) * if rng.bool() { 1.1920929e-7 } else { -5.9604645e-8 };
+            for (j, &i) in t.iter().enumerate() {
+                fl.sc.verts[i].0 = base[j].map(|c| c * f);
+            }
+        }
+    }
+    let fl = fl;
     let mut h = Hasher::new();
     h.u64(fl.w as u64).u64(fl.h as u64);
     for (p, _) in &fl.sc.verts {
@@ -78,71 +165,91 @@ fn order_case(rng: &mut Rng, rep: &mut Report, idx: u64) {
     let layers = match solo_layers_with(&fl, true, cutout) {
         Ok(l) => l,
         Err(m) => {
-            rep.violation("render.panic", format!("render() panicked: {m}"), fl_json(&fl));
+            // a panic of one triangle on its own is C02's subject, not an
+            // order dependence
+            rep.skip("scene.solo_render_panicked(C02's subject)");
+            let _ = m;
             return;
         }
     };
-    // expected per pixel: the layer with the largest reciprocal depth
+    if layers.iter().any(|l| l.z.iter().any(|z| z.is_nan())) {
+        // NaN depths (C02/C05's subject) leave no order defined
+        rep.skip("scene.nan_depth_in_a_solo_layer(C02/C05's subject)");
+        return;
+    }
     let npx = (fl.w * fl.h) as usize;
+    // The frame the scene is drawn over: far everywhere, or a previous
+    // frame's depths of every magnitude incl. the library's own clear value
+    // (+inf: nothing passes) and −inf. It takes part in the fold as one more
+    // layer holding the sentinel colour.
+    let prior_mode = rng.below(3);
+    let zmax = layers.iter().flat_map(|l| l.z.iter()).filter(|z| z.to_bits() != Z_MARK.to_bits()).fold(0.0f32, |a, z| a.max(*z));
+    let prior_z: Vec<f32> = (0..npx)
+        .map(|_| match prior_mode {
+            0 => 0.0,
+            _ => rng.pick(&[0.0f32, 0.0, f32::NEG_INFINITY, f32::INFINITY, 0.3 * zmax, 0.7 * zmax, 1.1 * zmax, 1e-30]),
+        })
+        .collect();
+    if prior_mode != 0 {
+        rep.count("scenes_over_a_prior_frame_with_depths");
+    }
+    // expected per pixel: the layer with the largest reciprocal depth
     let mut exp_col = vec![COL_SENT; npx];
-    let mut exp_z = vec![0.0f32.to_bits(); npx];
+    let mut exp_z: Vec<u32> = prior_z.iter().map(|z| z.to_bits()).collect();
     let mut tie = vec![false; npx];
     let mut overlap_px = 0u64;
     let mut own_multi = 0u64;
+    let mut ulp_close = 0u64;
     for p in 0..npx {
-        let mut best: Option<(f32, usize)> = None;
-        let mut cnt = 0;
+        // (depth, layer, is_multi); the winner and the runner-up decide
+        let mut cand: Vec<(f32, usize, bool)> = vec![];
         for (k, l) in layers.iter().enumerate() {
             let z = l.z[p];
             if z.to_bits() == Z_MARK.to_bits() {
                 continue;
             }
-            cnt += 1;
-            if l.multi[p] {
-                // drawn twice by this triangle's own clip fan (internal
-                // edge, inside the band C04 exempts): which of its own
-                // fragments is "the" fragment is not defined
-                tie[p] = true;
-                own_multi += 1;
-            }
-            if z.is_nan() {
-                tie[p] = true; // no order is defined; the NaN itself is reported below
-                continue;
-            }
-            match best {
-                None => best = Some((z, k)),
-                Some((bz, _)) => {
-                    if z == bz {
-                        tie[p] = true;
-                    } else if z > bz {
-                        best = Some((z, k));
-                    }
-                }
-            }
+            cand.push((z, k, l.multi[p]));
         }
-        if cnt > 1 {
+        if cand.len() > 1 {
             overlap_px += 1;
         }
-        if let Some((z, k)) = best {
-            if z > 0.0 {
-                exp_col[p] = layers[k].col[p];
-                exp_z[p] = z.to_bits();
-            } else if z == 0.0 {
+        cand.sort_by(|a, b| b.0.partial_cmp(&a.0).unwrap());
+        let Some(&(z, k, multi)) = cand.first() else { continue };
+        // ambiguous only if it concerns who wins: the winner is one of a
+        // triangle's own doubly drawn pixels (internal fan edge, inside the
+        // band C04 exempts), or the runner-up or the prior depth ties with it
+        if multi {
+            tie[p] = true;
+            own_multi += 1;
+        }
+        if let Some(&(z2, _, m2)) = cand.get(1) {
+            // (a runner-up drawn twice by its own fan cannot win with either
+            // of its fragments: the layer holds the nearer one)
+            let _ = m2;
+            if z2 == z {
                 tie[p] = true;
             }
+            if z2 != z && (z - z2).abs() <= 4.0 * 1.1920929e-7 * z.abs() {
+                ulp_close += 1;
+            }
+        }
+        if z == prior_z[p] {
+            tie[p] = true;
+        }
+        if z > prior_z[p] {
+            exp_col[p] = layers[k].col[p];
+            exp_z[p] = z.to_bits();
         }
     }
     rep.case(h.get(), overlap_px > 0);
     rep.add("pixels_with_overlapping_layers", overlap_px);
+    rep.add("pixels_with_winner_and_runner_up_within_4_ulp", ulp_close);
     rep.add("pixels_excluded_drawn_twice_by_own_clip_fan", own_multi);
     rep.add("pixels_excluded_exact_depth_tie", tie.iter().filter(|t| **t).count() as u64);
-    if layers.iter().any(|l| l.z.iter().any(|z| z.is_nan())) {
-        rep.violation("order.nan_depth_in_layer", "a solo render wrote NaN reciprocal depth, so no submission order is well defined".into(), fl_json(&fl));
-        return;
-    }
 
-    // histories
-    let mut hist: Vec<(Vec<Vec<usize>>, Option<DepthSort>, String)> = vec![];
+    // histories: (calls with their own sort settings, description)
+    let any_sort = |rng: &mut Rng| rng.pick(&[None, Some(DepthSort::FrontToBack), Some(DepthSort::BackToFront)]);
+    let mut hist: Vec<(Vec<(Vec<usize>, Option<DepthSort>)>, String)> = vec![];
     let perms: Vec<Vec<usize>> = if n <= 4 {
         permutations(n)
     } else {
@@ -155,36 +262,58 @@ fn order_case(rng: &mut Rng, rep: &mut Report, idx: u64) {
             .collect()
     };
     for p in &perms {
-        let sort = rng.pick(&[None, Some(DepthSort::FrontToBack), Some(DepthSort::BackToFront)]);
-        hist.push((vec![p.clone()], sort, format!("one call, order {p:?}, sort {sort:?}")));
+        // (a sort setting overrides the submission order within a call, so
+        // permutations are submitted unsorted two times out of three)
+        let sort = if rng.chance(2, 3) { None } else { any_sort(rng) };
+        hist.push((vec![(p.clone(), sort)], format!("one call, order {p:?}, sort {sort:?}")));
     }
     // every depth-sort setting on the identity order
     for sort in [None, Some(DepthSort::FrontToBack), Some(DepthSort::BackToFront)] {
-        hist.push((vec![(0..n).collect()], sort, format!("one call, submission order, sort {sort:?}")));
+        hist.push((vec![((0..n).collect(), sort)], format!("one call, submission order, sort {sort:?}")));
     }
-    // ordered partitions into separate calls
+    // ordered partitions into separate calls, each call with its own sort
+    // setting, empty calls in between now and then
     for _ in 0..8 {
         let mut p: Vec<usize> = (0..n).collect();
         rng.shuffle(&mut p);
-        let mut calls: Vec<Vec<usize>> = vec![vec![]];
+        let mut calls: Vec<(Vec<usize>, Option<DepthSort>)> = vec![(vec![], any_sort(rng))];
         for k in p {
-            if !calls.last().unwrap().is_empty() && rng.chance(1, 2) {
-                calls.push(vec![]);
+            if !calls.last().unwrap().0.is_empty() && rng.chance(1, 2) {
+                if rng.chance(1, 6) {
+                    calls.push((vec![], any_sort(rng)));
+                    rep.count("histories_with_an_empty_call");
+                }
+                calls.push((vec![], any_sort(rng)));
             }
-            calls.last_mut().unwrap().push(k);
+            calls.last_mut().unwrap().0.push(k);
         }
-        let sort = rng.pick(&[None, Some(DepthSort::FrontToBack), Some(DepthSort::BackToFront)]);
-        hist.push((calls.clone(), sort, format!("{} calls {calls:?}, sort {sort:?}", calls.len())));
+        if calls.len() > 1 {
+            rep.count("histories_of_several_calls");
+        }
+        hist.push((calls.clone(), format!("{} calls {calls:?}", calls.len())));
     }
     // one call per triangle, reversed
-    hist.push(((0..n).rev().map(|k| vec![k]).collect(), None, "one call per triangle, reversed".into()));
+    hist.push(((0..n).rev().map(|k| (vec![k], None)).collect(), "one call per triangle, reversed".into()));
 
-    for (calls, sort, desc) in &hist {
+    // the buffers: owned, or windows into parents of different sizes
+    let mut off = |rng: &mut Rng| (rng.below(4) as u32, rng.below(4) as u32);
+    let target = match idx % 3 {
+        0 => Target::Owned,
+        1 => Target::Windows { col_off: off(rng), col_pad: off(rng), dep_off: off(rng), dep_pad: off(rng) },
+        _ => Target::Mixed { dep_off: off(rng), dep_pad: off(rng) },
+    };
+    rep.count(match target {
+        Target::Owned => "target.owned",
+        Target::Windows { .. } => "target.windows_of_different_parents",
+        Target::Mixed { .. } => "target.owned_colour_windowed_depth",
+    });
+
+    for (calls, desc) in &hist {
         rep.count("histories_rendered");
-        let (col, z) = match render_history(&fl, calls, *sort, Some(Ordering::Less), cutout) {
+        let (col, z) = match render_history(&fl, calls, Some(Ordering::Less), cutout, &prior_z, target) {
             Ok(r) => r,
             Err(m) => {
-                rep.violation("render.panic", format!("render() panicked in history [{desc}]: {m}"), fl_json(&fl));
+                rep.violation("render.panic", format!("render() panicked (or wrote outside its window) in history [{desc}] although every triangle renders alone: {m}"), fl_json(&fl).set("target", format!("{target:?}")));
                 return;
             }
         };
@@ -197,13 +326,14 @@ fn order_case(rng: &mut Rng, rep: &mut Report, idx: u64) {
                 rep.violation(
                     "order.final_image_depends_on_history",
                     format!(
-                        "history [{desc}]: pixel ({x},{y}) ends with colour {:#x} depth {} but the nearest covering fragment has colour {:#x} depth {}",
+                        "history [{desc}] on {target:?}: pixel ({x},{y}) ends with colour {:#x} depth {} but the nearest covering fragment (or the prior frame, depth {}) has colour {:#x} depth {}",
                         col[p],
                         f32::from_bits(z[p]),
+                        prior_z[p],
                         exp_col[p],
                         f32::from_bits(exp_z[p])
                     ),
-                    fl_json(&fl).set("history", desc.clone()).set("cutout_shader", cutout),
+                    fl_json(&fl).set("history", desc.clone()).set("cutout_shader", cutout).set("target", format!("{target:?}")),
                 );
                 return;
             }
@@ -216,7 +346,10 @@ fn order_case(rng: &mut Rng, rep: &mut Report, idx: u64) {
 
 /// Second clause: disjoint depth ranges, depth test off, back-to-front sort.
 fn painter_case(rng: &mut Rng, rep: &mut Report) {
-    let n = 2 + rng.usize(5);
+    // mostly a handful of triangles; now and then enough of them to take the
+    // sort off its small-slice path
+    let many = rng.chance(1, 40);
+    let n = if many { 21 + rng.usize(80) } else { 2 + rng.usize(5) };
     let (w, h) = (8 + rng.below(40) as u32, 8 + rng.below(40) as u32);
     let near = rng.pick(&[0.1f32, 1.0, 5.0]);
     let far = near * rng.pick(&[10.0f32, 100.0, 1000.0]);
@@ -227,14 +360,22 @@ fn painter_case(rng: &mut Rng, rep: &mut Report) {
     // shuffled so that submission order is unrelated to depth
     let mut slabs: Vec<usize> = (0..n).collect();
     rng.shuffle(&mut slabs);
-    let g = rng.pick(&[1.25f32, 1.6, 2.5]);
+    let g = if many { 1.04 } else { rng.pick(&[1.25f32, 1.6, 2.5]) };
+    // the first slab may start before the near plane and the last end beyond
+    // the far plane: their triangles are clipped by those planes
+    let straddle = rng.chance(1, 4);
     let mut verts = vec![];
     let mut tris = vec![];
     for (k, &s) in slabs.iter().enumerate() {
         let z0 = near * 1.02 * g.powi(s as i32);
         let z1 = z0 * (1.0 + 0.6 * (g - 1.0));
-        if z1 >= far {
+        if z0 >= far || (z1 >= far && !straddle) {
             continue;
+        }
+        // slab 0 reaching in front of the near plane (still a disjoint range)
+        let z0 = if straddle && s == 0 { near * 0.5 } else { z0 };
+        if straddle && (s == 0 || z1 >= far) {
+            rep.count("painter.slabs_crossing_near_or_far_plane");
         }
         let kk = tris.len();
         let _ = k;
@@ -268,6 +409,20 @@ fn painter_case(rng: &mut Rng, rep: &mut Report) {
     };
     let zbuf = run(Some(Ordering::Less), None);
     let paint = run(None, Some(DepthSort::BackToFront));
+    // the same without sorting: where it differs from the depth-buffered
+    // image, the sort is what makes the painter image right
+    let unsorted = run(None, None);
+    // and on a colour-only target (no depth buffer at all), where painter's
+    // order is the only hidden-surface removal there is
+    let paint_col_only = {
+        let ctx = Context { face_cull: None, depth_sort: Some(DepthSort::BackToFront), depth_test: None, ..Context::default() };
+        let win = (rng.below(3) as u32, rng.below(3) as u32);
+        let (bw, bh) = (w + win.0 + rng.below(3) as u32, h + win.1 + rng.below(3) as u32);
+        let tk = if rng.bool() { Tk::ColOwned } else { Tk::ColWindow };
+        let (bw, bh, win) = if tk == Tk::ColOwned { (w, h, (0, 0)) } else { (bw, bh, win) };
+        let mut cv = Canvas::new(bw, bh, (win.0, win.1, w, h), |_, _| COL_SENT, |_, _| 0.0);
+        render_view(&verts, &tris, &proj, shade_plain, &ctx, to_screen, &mut cv, tk).map(|_| (0..h).flat_map(|y| (0..w).map(move |x| (x, y))).map(|(x, y)| cv.col[[win.0 + x, win.1 + y]]).collect::<Vec<u32>>())
+    };
     // pixels that one triangle's own clip fan draws twice (internal fan
     // edge, inside C04's band): "last own fragment" (painter) and "nearest
     // own fragment" (depth buffer) may differ there by rounding — excluded
@@ -292,6 +447,42 @@ fn painter_case(rng: &mut Rng, rep: &mut Report) {
         }
     }
     rep.add("painter.pixels_excluded_drawn_twice_by_own_clip_fan", multi.iter().filter(|m| **m).count() as u64);
+    // A fragment inside C04's band of a sliver thinner than the band can carry
+    // an extrapolated depth outside its triangle's own range, and the
+    // depth-buffered image may then legitimately prefer another slab: pixels
+    // whose depth-buffered winner's depth lies outside every slab's range are
+    // not compared
+    let slab_ranges: Vec<(f32, f32)> = tris.iter().map(|t| t.iter().map(|&i| 1.0 / verts[i].0[2]).fold((f32::INFINITY, 0.0f32), |(lo, hi), z| (lo.min(z), hi.max(z)))).collect();
+    if let Ok(a) = &zbuf {
+        for (p, m) in multi.iter_mut().enumerate() {
+            let z = f32::from_bits(a.1[p]);
+            if z != 0.0 && !slab_ranges.iter().any(|(lo, hi)| z >= lo * 0.999 && z <= hi * 1.001) {
+                *m = true;
+                rep.count("painter.pixels_excluded_depth_outside_every_slab(band fragment of a sliver)");
+            }
+        }
+    }
+    if let (Ok(a), Ok(u)) = (&zbuf, &unsorted) {
+        rep.add("painter.pixels_where_the_unsorted_image_differs", (0..a.0.len()).filter(|&p| !multi[p] && a.0[p] != u.0[p]).count() as u64);
+    }
+    match (&zbuf, &paint_col_only) {
+        (Ok(a), Ok(c)) => {
+            if let Some(p) = (0..a.0.len()).find(|&p| !multi[p] && a.0[p] != c[p]) {
+                rep.violation(
+                    "order.painter_differs_from_depth_buffer",
+                    format!("disjoint depth ranges, colour-only target: BackToFront gives colour {:#x} at pixel ({},{}) but the depth-buffered image has {:#x}", c[p], p as u32 % w, p as u32 / w, a.0[p]),
+                    cj(),
+                );
+                return;
+            }
+            rep.count("painter.colour_only_targets_compared");
+        }
+        (_, Err(m)) => {
+            rep.violation("render.panic", format!("render() panicked on a colour-only target: {m}"), cj());
+            return;
+        }
+        _ => {}
+    }
     match (zbuf, paint) {
         (Ok(a), Ok(b)) => {
             let drawn = a.0.iter().filter(|c| **c != COL_SENT).count();
@@ -316,10 +507,21 @@ pub fn run(cfg: &Cfg, rep: &mut Report) {
     rep.assumptions.push("pixels where two layers have exactly equal reciprocal depth are excluded, as the property states".into());
     rep.run_stream(cfg, 0, "order_histories", cfg.n(40_000, 5_000_000), |rng, i, rep| order_case(rng, rep, i));
     rep.run_stream(cfg, 1, "painter_disjoint_depths", cfg.n(60_000, 6_000_000), |rng, _, rep| painter_case(rng, rep));
-    rep.floor("histories_rendered", 50_000);
+    rep.floor("histories_rendered", 500_000);
+    rep.floor("histories_of_several_calls", 100_000);
+    rep.floor("histories_with_an_empty_call", 5_000);
+    rep.floor("scenes_over_a_prior_frame_with_depths", 10_000);
+    rep.floor("scenes_with_depths_over_many_magnitudes", 4_000);
+    rep.floor("scenes_with_depths_a_few_ulps_apart", 2_000);
+    rep.floor("pixels_with_winner_and_runner_up_within_4_ulp", 10_000);
+    rep.floor("target.windows_of_different_parents", 5_000);
+    rep.floor("target.owned_colour_windowed_depth", 5_000);
     rep.floor("scenes_with_discarding_shader", 1_000);
     rep.floor("pixels_with_overlapping_layers", 200_000);
     rep.floor("painter.pixels_compared", 500_000);
     rep.floor("painter.scenes_with_triangles_within_2x_near", 5_000);
+    rep.floor("painter.pixels_where_the_unsorted_image_differs", 200_000);
+    rep.floor("painter.colour_only_targets_compared", 20_000);
+    rep.floor("painter.slabs_crossing_near_or_far_plane", 3_000);
     let _ = ClipScene::<f32> { verts: vec![], tris: vec![] };
 }
